@@ -133,7 +133,7 @@ CLAIMED = {
         "trunc_horizon (for every program, steps of any size and sign, the truncated run equals the untruncated one on all phase states "
         "|k| <= 2m+1-A with A the accumulated absolute shift since the last reset, by induction over programs with a contamination-front invariant) "
         "and trunc_F0_Z0_exact (every F0/Z0 acquisition with A <= 2m+1 is identical); on the n-D shift model (Model/ShiftND.v, tied by the exact C04 correspondence) "
-        "prune_keeps_centre (the zero state is never removed), prune_removes_only_negligible (a removed state is below the tolerance in every batch entry), "
+        "nd_cap (with a cap m every wavenumber kept by the n-D shift, pruned or not, has no component beyond m), prune_keeps_centre (the zero state is never removed), prune_removes_only_negligible (a removed state is below the tolerance in every batch entry), "
         "prune_nothing_negligible_exact (pruning is exact when nothing is negligible) and merge_position0_exact (merging adds amplitudes exactly: the F+ and Z sums are unchanged). "
         "The n-D truncation horizon, the 2*eps*count pruning bound, the partials-pruner bound and the cell-size displacement bound of "
         "merging are NOT theorems: they are run as oracles on the implementation (truncated vs untruncated incl. caps lowered mid-sequence and "
@@ -258,7 +258,7 @@ CLAIMED = {
         "implementation's own arrays. Since round 7 also: wf_run_with_diffusion (all programs interleaving the 1-D operators with D, "
         "longitudinal factor conjugate-even -- checked on the implementation's DL by the C05 correspondence), D leaves the equilibrium alone, "
         "exchange_keeps_symmetry (X on a fibre of n compartments with the stacked matrices [MT, conj MT, real ML] keeps F-(k)=conj F+(-k), "
-        "Z(-k)=conj Z(k) in every compartment) and exchange_fixes_equilibrium.",
+        "Z(-k)=conj Z(k) in every compartment), exchange_fixes_equilibrium and nd_shift_fm_mirror (the n-D shift rebuilds F- as the mirror conjugate of F+ for every plan).",
    design_ref="DESIGN.md section 4 C08",
    note=TB + "Modelled rather than verified: Model/State.v, Model/Ops.v (un-batched 1-D operators), Model/Diffusion.v d_apply (tied per D application by C05), "
         "Model/Exchange.v x_apply_fibre (tied by C06 with injected matrices); n-D/float shifts are covered by the wf predicate on observed arrays only. Axioms: none (closed under the global context).",
